@@ -426,6 +426,7 @@ pub fn run_check(spec: &CheckSpec, tier: Tier) -> i32 {
             "scheduler_steps": a.steps,
             "context_switches": a.switches,
             "virtual_time_ms": a.virtual_ms,
+            "virtual_time_unit": "scheduler steps: sleep_steps()/time jumps provide simulated time; the tokio clock is paused and never advanced (no alarmed scenario needs a timer)",
             "distinct_schedules": a.schedules.len(),
             "distinct_final_states": a.state_hashes.len(),
             "faults_fired": faults,
